@@ -81,6 +81,9 @@ def table_utility(comp):
             return comp.get("mean_score", 0.0) - (0.5 * len(set(np.asarray(a[1]).tolist())) if len(a) > 1 else 0.0)
 
         def elementwise_score(self, X_train, y_train, X_test, y_test, metadata_train=None, metadata_test=None):
+            if comp.get("data_dependent") and len(X_train) and float(np.asarray(X_train)[0, 0]) != 0.0:
+                # like a model-based utility, the table depends on the training DATA, not only on the label sets
+                return self.U + 0.125 * float(np.asarray(X_train)[0, 0])
             return self.U            # the retained array itself, on purpose
 
         def elementwise_null_score(self, X_train, y_train, X_test, y_test, metadata_train=None, metadata_test=None):
@@ -122,6 +125,16 @@ def run_impl(c):
             r = joint(X, y, Xv, yv, null_score=-7.5)
             calls.append([comps[:-1] + [None], -7.5, float(r.score)])
             c["comps"][-1]["fail"] = False
+        # a table HISTORY on the one joint object: the same label sets and validation labels, other training data (rows reversed):
+        # the joint table must be the weighted sum of what the components answer to THIS call
+        for cp in c["comps"]:
+            cp["data_dependent"] = True
+        for Xh, yh in ((X[::-1].copy(), y[::-1].copy()), (X, y)):
+            jt_h = np.asarray(joint.elementwise_score(Xh, yh, Xv, yv), dtype=float)
+            exp_h = sum(w * np.asarray(u.elementwise_score(Xh, yh, Xv, yv), dtype=float) for w, u in zip(ws, us))
+            assert np.allclose(jt_h, exp_h, rtol=0, atol=1e-9), "joint element-wise table is not the weighted sum of the components' (history)"
+        for cp in c["comps"]:
+            cp["data_dependent"] = False
         tabs = [np.asarray(u.elementwise_score(X, y, Xv, yv), dtype=float).tolist() for u in us]
         nvs = [np.asarray(u.elementwise_null_score(X, y, Xv, yv), dtype=float).tolist() for u in us]
         return {"ws": ws, "tables": tabs, "nullvs": nvs, "joint_table": jt.tolist(), "joint_null": jn.tolist(),
